@@ -100,6 +100,7 @@ def tigerxml(in_file, _, **params):
     """Read trees from TIGER XML. The encoding argument is ignored here.
     """
     digits = re.compile(r'\d+')
+    in_file = misc.gunzip(in_file)
     with io.open(in_file, mode='rb') as stream:
         if not 'quiet' in params:
             print("parsing xml...", file=sys.stderr)
